@@ -695,7 +695,7 @@ func (s *Service) serve(nc Conn) error {
 
 	atomic.StoreInt32(&s.state, stateStarted)
 
-	err = s.subscribe()
+	err = s.subscribe(nc, inCh)
 	if err != nil {
 		s.errorf("Failed to subscribe: %s", err)
 		go s.Shutdown()
@@ -897,7 +897,7 @@ func defaultOwnership(path string) []string {
 
 // subscribe makes a nats subscription for each required request type, based on
 // the patterns used for ResetAll.
-func (s *Service) subscribe() error {
+func (s *Service) subscribe(nc Conn, inCh chan *nats.Msg) error {
 	var err error
 	s.setDefaultOwnership()
 	if len(s.resetResources) == 0 && len(s.resetAccess) == 0 {
@@ -929,9 +929,9 @@ next:
 		}
 		s.tracef("sub %s", pattern)
 		if s.queueGroup == "" {
-			_, err = s.nc.ChanSubscribe(pattern, s.inCh)
+			_, err = nc.ChanSubscribe(pattern, inCh)
 		} else {
-			_, err = s.nc.ChanQueueSubscribe(pattern, s.queueGroup, s.inCh)
+			_, err = nc.ChanQueueSubscribe(pattern, s.queueGroup, inCh)
 		}
 		if err != nil {
 			return err
